@@ -175,6 +175,12 @@ type failure struct{ x int }
 
 func (f failure) Error() string { return strconv.Itoa(f.x) }
 
+// A user function may fail with an error of its own that "is" a context error (its own sub-deadline expired): for the
+// stage that is a failure of the element like any other.  Even elements fail that way.
+func (f failure) Is(target error) bool {
+	return f.x%2 == 0 && (target == context.DeadlineExceeded || target == context.Canceled)
+}
+
 // fnset is one set of harness-owned user functions (a pipeline has one per stage).
 type fnset struct {
 	c      *ctl
@@ -238,6 +244,9 @@ func (fs *fnset) fnPred(x int) (bool, error) {
 
 func (fs *fnset) fnEach(x int) (int, error) {
 	fs.c.enter(0, x)
+	if fs.fail[x] {
+		return x, failure{x} // ForEach ignores what its function returns: every element is still visited
+	}
 	return x, nil
 }
 
